@@ -32,7 +32,8 @@ Fixpoint add_all (op : fop) (m : mode) (xs : list fop) (f : flags) (sp : bool) :
   end.
 
 (* apply the plan; returns the flagged body and whether a special mode was recorded
-   (mod_at = FunctionModifier::add_instr_at, which does not record it: D19) *)
+   ([mod_at] = the call goes through FunctionModifier::add_instr_at; since the repair of D19 that path records
+   special modes like every other one, so the argument no longer matters) *)
 Fixpoint apply_plan (mod_at : bool) (plan : list (nat * mode * list fop)) (body : list (fop * flags)) (sp : bool)
   : option (list (fop * flags) * bool) :=
   match plan with
@@ -45,7 +46,7 @@ Fixpoint apply_plan (mod_at : bool) (plan : list (nat * mode * list fop)) (body 
                  | [], MAlternate => Some (mkFlags (f_before f) (f_after f) (Some []) (f_sa f) (f_be f) (f_bx f) (f_balt f), false)
                  | [], MBlockAlt => Some (mkFlags (f_before f) (f_after f) (f_alt f) (f_sa f) (f_be f) (f_bx f) (Some []), true)
                  | _, _ => match add_all op m xs f false with
-                           | Some (f', s) => Some (f', if mod_at then false else s)   (* D19 *)
+                           | Some (f', s) => Some (f', s)
                            | None => None end
                  end) with
           | None => None
@@ -65,7 +66,7 @@ Definition model (c : lcase) : option (list fop * list (N * N)) :=
   match apply_plan (N.eqb (c_path c) 3) (c_plan c) (map (fun o => (o, no_flags)) (c_body c)) false with
   | None => None
   | Some (fb, sp) =>
-      let has_special := (sp || negb (is_nil (c_entry c)) || negb (is_nil (c_exit c))) && negb (c_skipped c) in
+      let has_special := sp || negb (is_nil (c_entry c)) || negb (is_nil (c_exit c)) in   (* [c_skipped] (an import was deleted) is irrelevant since the repair of D20 *)
       let loc := mkLocals (c_nparams c) (c_numlocals c) (c_groups c) in
       let '(r, loc') := resolve has_special (c_entry c) (c_exit c) (c_exit_ty c) fb loc in
       Some (emit r, groups loc')
@@ -278,13 +279,7 @@ Definition holds21 (c : lcase) : bool :=
   | None => false
   end.
 
-(* D19: FunctionModifier::add_instr_at never records that a special mode was used *)
 Definition special_mode (m : mode) : bool := negb (plain_mode m).
-Definition known_D19 (c : lcase) : bool :=
-  N.eqb (c_path c) 3
-  && existsb (fun e => special_mode (snd (fst e)) && negb (is_nil (snd e))) (c_plan c)
-  && negb (existsb (fun e => mode_eqb (snd (fst e)) MBlockAlt && is_nil (snd e)) (c_plan c))
-  && is_nil (c_entry c) && is_nil (c_exit c).
 
 (* ------------------------------------------------------------------------------------------ *)
 (* C22: every accepted special-mode injection is reflected in the encoded body.  Probes carry
@@ -318,7 +313,6 @@ Definition known_D16 (c : lcase) : bool :=
   let ds := depths_from 0 (c_body c) in
   existsb (fun e => let '(i, m, _) := e in
              mode_eqb m MSemanticAfter && targets_fn_label (nth i ds 0) (nth i (c_body c) FEnd)) (c_plan c).
-Definition known_D20 (c : lcase) : bool := c_skipped c.
 
 Definition is_structural (op : fop) : bool := is_block_style op || match op with FEnd => true | _ => false end.
 
@@ -366,10 +360,10 @@ Definition holds22 (c : lcase) : bool :=
 Definition verdict15 (c : lcase) : bool * bool * bool * list N :=
   (agree c, domain15 c, holds15 c, []).
 Definition verdict21 (c : lcase) : bool * bool * bool * list N :=
-  (agree c, domain21 c, holds21 c, if known_D19 c then [19] else [])%N.
+  (agree c, domain21 c, holds21 c, []).
 Definition verdict22 (c : lcase) : bool * bool * bool * list N :=
   (agree c, domain22 c, holds22 c,
-   (if known_D16 c then [16] else []) ++ (if known_D19 c then [19] else []) ++ (if known_D20 c then [20] else []))%N.
+   (if known_D16 c then [16] else []))%N.
 (* C05 on this engine: the second encoding equals the first.
    D31: a special-mode injection that sits inside a region the same plan removes (or on the removed opener)
    is never resolved; it is still attached to the IR after the first encode and the second encode treats it
@@ -380,7 +374,7 @@ Definition known_D31 (c : lcase) : bool :=
              special_mode m && (if mode_eqb m MBlockAlt then negb (top_level c i) else mem_nat i rem)) (c_plan c).
 Definition verdict05 (c : lcase) : bool * bool * bool * list N :=
   (agree c, match c_obs c with Some _ => true | None => false end, c_obs2_same c,
-   (if known_D31 c then [31] else []) ++ (if known_D19 c then [19] else []) ++ (if known_D20 c then [20] else []))%N.
+   (if known_D31 c then [31] else []))%N.
 
 Definition report_C15 := run_report verdict15.
 Definition report_C21 := run_report verdict21.
